@@ -91,6 +91,43 @@ def main(chk):
             if n <= 3 or not q:
                 J('SLOW_STOCH', 'scalar', [n, e], tf(n)); J('SLOW_STOCH', 'bar', [n, e], tf(n))
     chk.add(run_jobs(jobs))
+    hs = [k_er_range(2, 6, chk.seed)] + ([k_er_range(2, 7, chk.seed), k_er_range(3, 7, chk.seed)] if not q else [])
+    chk.add(kani.run_family_set('C07', hs, jobs=4, timeout_s=300 if q else 3600))
     chk.assumptions += ['f64 arithmetic modelled as exact real arithmetic in engine R: the range is proved exactly (no slack needed) in the reals',
                         'positive prices / valid bars; claim applies where the reference denominator is non-zero']
     chk.notes += ['the 1e-9 rounding slack itself for full-range floating-point inputs', 'periods above the bound']
+
+
+# ------------------------------------------------------------------------------------------------ engine K
+from vlib import kani, native
+from vlib.kani import KB, KOps
+
+ER_TAB = [1.0, 1.0001, 250000.0, 1.0002]
+
+
+def k_er_range(n, t, seed):
+    """bit-precise: an outlier passing through the window must not leave residue that pushes ER outside [0, 1] (+1e-9)"""
+    tab = ER_TAB[seed % len(ER_TAB):] + ER_TAB[:seed % len(ER_TAB)]
+    b = KB('c07_er_range_n%d_t%d' % (n, t), unwind=n + 4,
+           family='K:C07 ER n=%d: %d inputs symbolic over an alphabet with one-pip moves and a 2.5e5 outlier, output in [0, 1+1e-9] or NaN (0/0 is C08)' % (n, t),
+           bounds=dict(engine='K', indicator='ER', n=n, t=t, inputs='each input symbolic over %r' % (tab,)))
+    k = KOps(b)
+    k.new('a', 'ER', [n])
+    idx = []
+    for i in range(t):
+        v = b.pick('x%d' % i, tab); k.tables['x%d' % i] = tab
+        o = k.feed('a', 'scalar', ('var', v, ('pick', 'x%d' % i)))
+        b.emit('{ let r = f64::from_bits(%s[0]); assert!(r != r || (r >= 0.0 && r <= 1.0 + 1e-9), "EfficiencyRatio outside [0, 1]"); }' % o)
+        idx.append(len(k.ops) - 1)
+
+    def confirm(vals):
+        ops = k.concrete(vals)
+        for prof in ('dev', 'release'):
+            lines, res = kani.native_ops(ops, prof)
+            for j in idx:
+                r = res[j]
+                if r == 'panic' or (r[0] == r[0] and not (0.0 <= r[0] <= 1.0 + 1e-9)):
+                    return True, lines, 'ER(%d) returns %r after %r (%s)' % (n, r, [tab[vals['x%d' % q]] for q in range(t)], prof)
+        return False, lines, 'native in range'
+    b.confirm = confirm
+    return b
